@@ -203,6 +203,23 @@ where
     }
 }
 
+/// (address, length) of mutable view number `view`
+fn mut_span<E: Elem, const K: usize>(a: &mut GA<E, ConstArrayLength<K>>, view: usize) -> (usize, usize)
+where
+    Const<K>: IntoArrayLength,
+{
+    match view {
+        0 => span(a.as_mut_slice()),
+        1 => span(&mut **a),
+        2 => span(AsMut::<[E]>::as_mut(a)),
+        3 => span(BorrowMut::<[E]>::borrow_mut(a)),
+        4 => span(&AsMut::<[E; K]>::as_mut(a)[..]),
+        5 => span(a.into_iter().into_slice()),
+        6 => span(GA::<E, ConstArrayLength<K>>::from_mut_slice(a.as_mut_slice()).as_slice()),
+        _ => span(a.iter_mut().into_slice()),
+    }
+}
+
 fn view_matrix<E: Elem, const K: usize>() -> Result<CaseInfo, String>
 where
     Const<K>: IntoArrayLength,
@@ -223,6 +240,11 @@ where
     }
     let mut writes = 0;
     for view in 0..MUT_VIEWS.len() {
+        // a mutable view starts at the array's address too (for zero-sized elements this is the only observable)
+        let sp = mut_span::<E, K>(&mut a, view);
+        if sp != (base, K) {
+            return Err(format!("{}: view is (addr {:#x}, len {}), array is (addr {base:#x}, len {K})", MUT_VIEWS[view], sp.0, sp.1));
+        }
         let idxs: Vec<usize> = if K <= 13 { (0..K).collect() } else { vec![0, 1, K / 2, K - 2, K - 1] };
         for i in idxs {
             let fresh = E::make();
@@ -341,7 +363,7 @@ macro_rules! for_es {
 
 fn run_c02(ctx: &mut Ctx) {
     for_ks!([0, 1, 2, 3, 4, 5, 6, 7, 8, 9, 10, 11, 12, 13, 15, 16, 17, 31, 32, 33, 64, 100, 255, 256, 1000, 1024], K => {
-        for_es!([u8, u64, (), Tr<0>, TrZ, A16, P3], E => {
+        for_es!([u8, u64, (), Tr<0>, TrZ, A16, P3, B3, A64, TrA], E => {
             type N = ConstArrayLength<K>;
             let ls: Vec<usize> = if K <= 13 { (0..=K + 2).collect() } else { let mut v = vec![0, 1, K - 1, K, K + 1, 2 * K]; v.sort(); v.dedup(); v };
             for entry in 0u8..6 {
@@ -360,6 +382,8 @@ fn run_c02(ctx: &mut Ctx) {
     tuples!(ctx, TrZ);
     tuples!(ctx, u64);
     tuples!(ctx, Tr<5>);
+    tuples!(ctx, B3);
+    tuples!(ctx, TrA);
 }
 
 static MAXN: std::sync::atomic::AtomicUsize = std::sync::atomic::AtomicUsize::new(usize::MAX);
